@@ -721,6 +721,20 @@ class Model:
         # names, helpers and constants a maintenance commit introduced are brought back to the inventory's vocabulary (sa/canon.py)
         from .canon import canonicalise
         self.canon_notes = canonicalise(self.tree, specialise=specialise)
+        # functions / classes that are still there and that the inventory does not know (helpers that could not be written out)
+        from .canon import inventory as _inv, scopes as _scopes
+        inv_ = _inv() or {}
+        known_f = {q.rpartition(".")[2] for m_ in inv_.get("functions", {}).values() for q in m_}
+        known_c = set(inv_.get("methods_of", {}))
+        self.new_names = set()
+        if inv_:
+            for mod_, t_ in self.tree.items():
+                for scope_, owner_, fn_ in _scopes(t_):
+                    if fn_.name not in known_f and not (fn_.name.startswith("__") and fn_.name.endswith("__")):
+                        self.new_names.add(fn_.name)
+                for c_ in t_.body:
+                    if isinstance(c_, ast.ClassDef) and c_.name not in known_c:
+                        self.new_names.add(c_.name)
         for mod in self.tree:
             inline_registry_aliases(self.tree[mod])
             desugar_tree(self.tree[mod])
